@@ -25,13 +25,14 @@ from pbt.engine import Sub
 
 ID = "C43"
 RULE = (
-    "Hypothesis draws a volume of 8..14 cells per axis on a uniform grid or a rectilinear grid with cell widths "
-    "from {0.6..1.6}*d, and 1..3 shapes: sphere (one radius), ellipsoid (three radii), cylinder (axis, radius, "
-    "extrusion length) or extruded polygon (axis; star-shaped loop with 3..9 vertices or a rotated/stretched "
+    "Hypothesis draws a volume (one of 12x12x12, 10x14x9, 14x9x11 cells) on a uniform grid or a rectilinear grid with "
+    "cell widths from {0.6..1.6}*d, and 1..3 shapes: sphere (one radius), ellipsoid (three radii), cylinder (axis, "
+    "radius, extrusion length) or extruded polygon (axis; star-shaped loop with 3..9 vertices or a rotated/stretched "
     "non-star-shaped template L/U/S/T/arrow; either orientation; with or without the repeated closing vertex). "
-    "Radii and vertices are real numbers (not multiples of the cell), so the bounding box snaps to the grid and the "
-    "surface cuts cells at arbitrary positions. Each shape is placed by its lower corner and goes through "
-    "fdtdx.place_objects. A shape is non-trivial when its mask contains both values; distinct = sha1 of the case."
+    "Diameters / bounding boxes are a pooled integer (quick: 2,3,5,8; thorough: 1..9 cells) plus a real jitter in "
+    "(-0.45, 0.45) cells, so the bounding box snaps to the grid and the surface cuts cells at arbitrary positions. "
+    "Each shape is placed by its lower corner and goes through fdtdx.place_objects. A shape is non-trivial when its "
+    "mask contains both values; distinct = sha1 of the case."
 )
 ASSUMPTIONS = [
     "the analytic shape is centred on the centre of the placed bounding box (physical centre on non-uniform grids)",
@@ -39,6 +40,8 @@ ASSUMPTIONS = [
     "cells whose centre lies within 1e-4 cell widths of the surface are not compared (counted as ambiguous)",
     "polygons are simple (non self-intersecting), so every inside rule gives the same analytic interior",
     "a cylinder / polygon mask may be returned with extent 1 along the extrusion axis (broadcast over it)",
+    "polygon vertex columns (x', y') map to the two transverse axes in ascending order (the objects' documented "
+    "horizontal / vertical axes); vertices are given centred on their bounding box as the class requires",
 ]
 
 D = 5e-8
@@ -328,7 +331,7 @@ def body(ctx, case):
 
 
 SUBS = [
-    Sub(name="raster", body=body, strategy=lambda ctx: case_strategy(ctx), quick=60, thorough=4000,
+    Sub(name="raster", body=body, strategy=lambda ctx: case_strategy(ctx), quick=48, thorough=3000,
         lanes=("f64", "f32"), f32_fraction=0.25, quick_shards=2,
         rule="1..3 random shapes per placed scene; mask compared cell by cell with analytic centre inclusion"),
 ]
